@@ -13,7 +13,8 @@
 //	late = 1: the app is mounted on its parent before its own children are mounted on it
 //
 // req  : `<m>:<hexpath>`   m = 0 GET, 2 POST
-// mode : `mw` (the outermost middleware returns the error itself) | `chain` (whatever the chain returns)
+// mode : `mw` (the outermost middleware returns the error itself) | `chain` (whatever the chain returns),
+//        optionally `+custom`: the root app uses a custom context (NewCtxFunc), i.e. customRequestHandler
 // err  : `F:<code>:<hexmsg>` fiber.NewError | `P:<hexmsg>` errors.New | `W:<code>:<hexmsg>` wrapped *fiber.Error
 //
 //	— the error returned by every `/e` route and by the middleware in mode mw
@@ -181,6 +182,11 @@ func decErr(s string) errSpec {
 
 // ---------------------------------------------------------------- one evaluation
 
+// customCtx makes the root app serve through customRequestHandler / nextCustom.
+type customCtx struct {
+	fiber.DefaultCtx
+}
+
 type run struct {
 	calls    map[int]int
 	chain    string
@@ -238,8 +244,13 @@ func describe(err error) string {
 	return "P:" + gen.Hex(err.Error())
 }
 
-func buildApp(rootOwn own, ns []*node, r *run) fasthttp.RequestHandler {
+func buildApp(rootOwn own, ns []*node, r *run, custom bool) fasthttp.RequestHandler {
 	root := fiber.New(cfgFor(rootOwn, r))
+	if custom {
+		root.NewCtxFunc(func(app *fiber.App) fiber.CustomCtx {
+			return &customCtx{DefaultCtx: *fiber.NewDefaultCtx(app)}
+		})
+	}
 	root.Use(func(c fiber.Ctx) error {
 		if r.mwRaises {
 			err := r.e.make()
@@ -255,8 +266,13 @@ func buildApp(rootOwn own, ns []*node, r *run) fasthttp.RequestHandler {
 	return root.Handler()
 }
 
-func evalOnce(h fasthttp.RequestHandler, r *run, m int, path string) string {
+func evalOnce(h fasthttp.RequestHandler, r *run, m int, path string) (out string) {
 	r.reset()
+	defer func() {
+		if rec := recover(); rec != nil {
+			out = "panic"
+		}
+	}()
 	var fctx fasthttp.RequestCtx
 	var req fasthttp.Request
 	req.Header.SetMethod(fiber.DefaultMethods[m])
@@ -282,7 +298,7 @@ func evalOnce(h fasthttp.RequestHandler, r *run, m int, path string) string {
 	return "chain=" + r.chain + ";calls=" + c + ";status=" + strconv.Itoa(fctx.Response.StatusCode()) + ";body=" + gen.Hex(string(fctx.Response.Body()))
 }
 
-func observe(rootOwn own, ns []*node, m int, path string, mw bool, e errSpec) (obs string, ok bool) {
+func observe(rootOwn own, ns []*node, m int, path string, mw, custom bool, e errSpec) (obs string, ok bool) {
 	defer func() {
 		if r := recover(); r != nil {
 			ok = false
@@ -291,7 +307,7 @@ func observe(rootOwn own, ns []*node, m int, path string, mw bool, e errSpec) (o
 	seen := map[string]bool{}
 	for a := 0; a < nApps; a++ {
 		r := &run{mwRaises: mw, e: e}
-		h := buildApp(rootOwn, ns, r)
+		h := buildApp(rootOwn, ns, r, custom)
 		for i := 0; i < nReq; i++ {
 			seen[evalOnce(h, r, m, path)] = true
 		}
@@ -304,8 +320,8 @@ func observe(rootOwn own, ns []*node, m int, path string, mw bool, e errSpec) (o
 	return strings.Join(keys, "|"), true
 }
 
-func emit(w *gen.Writer, id string, rootOwn own, ns []*node, m int, path string, mw bool, e errSpec) {
-	obs, ok := observe(rootOwn, ns, m, path, mw, e)
+func emit(w *gen.Writer, id string, rootOwn own, ns []*node, m int, path string, mw, custom bool, e errSpec) {
+	obs, ok := observe(rootOwn, ns, m, path, mw, custom, e)
 	if !ok {
 		w.Count("build-panic")
 		return
@@ -313,6 +329,9 @@ func emit(w *gen.Writer, id string, rootOwn own, ns []*node, m int, path string,
 	mode := "chain"
 	if mw {
 		mode = "mw"
+	}
+	if custom {
+		mode += "+custom"
 	}
 	if strings.Contains(obs, "|") {
 		w.Count("order-dependent-outcome")
@@ -419,10 +438,11 @@ func main() {
 				if path == "" || path[0] != '/' {
 					panic("bad path")
 				}
-				if f[3] != "mw" && f[3] != "chain" {
+				base := strings.TrimSuffix(f[3], "+custom")
+				if base != "mw" && base != "chain" {
 					panic("bad mode")
 				}
-				emit(w, f[0], rootOwn, ns, m, path, f[3] == "mw", decErr(f[4]))
+				emit(w, f[0], rootOwn, ns, m, path, base == "mw", base != f[3], decErr(f[4]))
 			}()
 		}
 		return
@@ -492,6 +512,6 @@ func main() {
 		}
 		e := errSpec{kind: gen.Pick(r, []byte{'F', 'F', 'P', 'W'}), code: gen.Pick(r, []int{400, 401, 404, 418, 503, 500}),
 			msg: gen.Pick(r, []string{"boom", "nope", "bad thing"})}
-		emit(w, fmt.Sprintf("s%d.%d", o.Seed, i), rootOwn, ns, gen.Pick(r, []int{0, 0, 0, 0, 2}), path, r.Chance(1, 6), e)
+		emit(w, fmt.Sprintf("s%d.%d", o.Seed, i), rootOwn, ns, gen.Pick(r, []int{0, 0, 0, 0, 2}), path, r.Chance(1, 6), r.Chance(1, 4), e)
 	}
 }
